@@ -1529,6 +1529,13 @@ where
             return;
         };
 
+        // GRAFT is a gossipsub control message: a peer that has not negotiated a gossipsub protocol
+        // (a floodsub peer, or one whose protocol is not known yet) never becomes a mesh member.
+        if !connected_peer.kind.is_gossipsub() {
+            tracing::warn!(peer=%peer_id, "GRAFT: ignoring request from non-gossipsub peer");
+            return;
+        }
+
         // For each topic, if a peer has grafted us, then we necessarily must be in their mesh
         // and they must be subscribed to the topic. Ensure we have recorded the mapping.
         for topic in &topics {
